@@ -174,3 +174,46 @@ def run_lookup(prog, rep):
     rule.check(not bad, 'ImplContainer::getEntities|loop', rep.where(ge[0]), 'nix::base::ImplContainer::getEntities',
                '%d instantiation(s): i = 0 .. n-1 step 1, getter(i), append in order, no early exit' % len(ge), '; '.join(sorted(set(bad))[:2]))
     return rule
+
+
+def run_name_first(prog, rep):
+    """name-or-id lookups: a child linked under that very name is always found (names may have the shape of an id);
+    the attribute search is only the fall-back"""
+    from ..absint import GenericInterp
+    rule = rep.rule('R-NAMEFIRST', 'name-or-id lookups answer with the link of that name whenever it exists; the id search is the fall-back', floor=2)
+    for q, opener, finder in (('nix::hdf5::H5Group::findGroupByNameOrAttribute', 'openGroup', 'findGroupByAttribute'),
+                              ('nix::hdf5::H5Group::findDataByNameOrAttribute', 'openData', 'findDataByAttribute')):
+        f = prog.fn(q)
+        pn = [p['name'] for p in f.params]
+        it = GenericInterp(prog, watch=lambda n: (n.callee or {}).get('name') in (opener, finder))
+        res = it.enumerate(f, this='THIS', args=[(p,) for p in pn])
+        probs = []
+        seen = set()
+        for assign, out, log, fields in res:
+            if out[0] != 'ret':
+                probs.append('outcome %r' % (out,))
+                continue
+            has = assign.get(('bool', 'hasObject', 'THIS', (pn[1],)))
+            uuid = [v for k, v in assign.items() if k[0] == 'bool' and 'looksLikeUUID' in str(k[1])]
+            names = [l[0] for l in log]
+            if has is None:
+                probs.append('a path answers (%s) without asking whether a link named %s exists: an entity whose name has the shape of an id is not found by name, is missing from index access, and its name can be created twice' % (
+                    names or 'nothing', pn[1]))
+                continue
+            if has:
+                seen.add('name')
+                if names != [opener] or [l for l in log if l[0] == opener][0][2] != (pn[1],):
+                    probs.append('the link exists but the answer is %s' % (names or 'nothing'))
+            elif uuid and uuid[0]:
+                seen.add('id')
+                fl = [l for l in log if l[0] == finder]
+                if not fl or fl[0][2:4] != ((pn[0],), (pn[1],)):
+                    probs.append('id fall-back does not search attribute %s for %s' % (pn[0], pn[1]))
+            else:
+                seen.add('none')
+                if log or not (isinstance(out[1], tuple) and out[1][:2] == ('new', 'boost::optional') and len(out[1]) == 2):
+                    probs.append('neither name nor id shape, but the answer is not empty')
+        if seen != {'name', 'id', 'none'}:
+            probs.append('paths do not cover name / id fall-back / nothing (%s)' % sorted(seen))
+        rule.check(not probs, q.split('::')[-1], rep.where(f), f.label(), 'link of that name first, then id-shaped values by attribute, else nothing', '; '.join(sorted(set(probs))[:2]))
+    return rule
